@@ -13,6 +13,7 @@ import (
 	"hash/fnv"
 	"os"
 	"path/filepath"
+	"runtime"
 	"sort"
 	"strconv"
 	"strings"
@@ -539,6 +540,19 @@ func StartWatchdog(limit time.Duration) {
 				if seq != last || cs == nil {
 					last, since = seq, time.Now()
 					continue
+				}
+				if time.Since(since) > 6*time.Second {
+					// the same call for seconds and the heap beyond anything a case needs: it allocates without bound, do not
+					// wait for the machine to run out of memory
+					var ms runtime.MemStats
+					runtime.ReadMemStats(&ms)
+					if ms.HeapAlloc > 3<<30 {
+						C.markFailed()
+						SaveFailure(check, cs, fmt.Sprintf("hang: the call has not returned after %v and the process holds %d MB of heap (memory without bound)", time.Since(since).Round(time.Second), ms.HeapAlloc>>20))
+						C.Flush()
+						fmt.Printf("--- FAIL: watchdog: %s allocates without bound\n", check)
+						os.Exit(1)
+					}
 				}
 				if time.Since(since) > limit {
 					C.markFailed()
